@@ -86,6 +86,10 @@ pub struct WorkerOut {
     pub samples: Vec<String>,
     pub modes: BTreeMap<String, u64>,
     pub threads_hist: Vec<u64>,
+    /// set when the worker stopped early because a simulated thread hung inside the library:
+    /// first index that was NOT run
+    #[serde(default)]
+    pub incomplete_from: Option<u64>,
 }
 
 fn add_vec(a: &mut Vec<u64>, b: &[u64]) {
@@ -229,6 +233,10 @@ pub fn work_main(a: &WorkArgs) {
                 out.candidates.push(path);
             }
         }
+        if r.hung {
+            out.incomplete_from = Some(i + 1);
+            break;
+        }
         if a.log_every > 0 && (i - a.from + 1) % a.log_every == 0 {
             eprintln!("[work {}] {}/{} scenarios, {:.1}s", a.tag, i - a.from + 1, a.to - a.from, t0.elapsed().as_secs_f64());
         }
@@ -237,6 +245,10 @@ pub fn work_main(a: &WorkArgs) {
     out.transitions = transitions.into_iter().collect();
     out.wall_s = t0.elapsed().as_secs_f64();
     std::fs::write(&a.out_path, serde_json::to_string(&out).unwrap()).expect("write worker out");
+    if out.incomplete_from.is_some() {
+        // stuck threads cannot be joined: leave without running destructors
+        std::process::exit(0);
+    }
 }
 
 pub fn sample_text(sc: &Scenario, decisions: &[u8]) -> String {
@@ -441,6 +453,7 @@ pub fn batch_main(b: &BatchArgs) -> BatchOut {
     let mut rerun: Vec<(u64, u64)> = Vec::new();
     let mut running: Vec<(String, u64, u64, std::process::Child)> = Vec::new();
     let mut next_chunk = 0usize;
+    let mut requeues = 0u32;
     loop {
         while running.len() < w && next_chunk < chunks.len() {
             let (from, to) = chunks[next_chunk];
@@ -471,7 +484,17 @@ pub fn batch_main(b: &BatchArgs) -> BatchOut {
         let path = format!("{}/work-{}.json", b.work_dir, tag);
         match (st.code(), std::fs::read_to_string(&path)) {
             (Some(0), Ok(s)) => match serde_json::from_str::<WorkerOut>(&s) {
-                Ok(o) => worker_outs.push(o),
+                Ok(o) => {
+                    if let Some(next) = o.incomplete_from {
+                        // an operation never returned (I5 candidate written); carry on behind it,
+                        // but not for ever if every range hangs
+                        requeues += 1;
+                        if next < to && requeues <= 8 {
+                            chunks.push((next, to));
+                        }
+                    }
+                    worker_outs.push(o)
+                }
                 Err(e) => out.harness_errors.push(format!("worker {} output unreadable: {}", tag, e)),
             },
             (Some(3), _) => {
@@ -485,18 +508,25 @@ pub fn batch_main(b: &BatchArgs) -> BatchOut {
     // stalled ranges are re-run once with yield sites off (a changed tree may hold a real lock
     // across a yield site; parking there starves the other simulated threads - that is the
     // harness's doing, not a property violation)
-    for (k, (from, to)) in rerun.into_iter().enumerate() {
-        let tag = format!("{}-rerun{}", b.tag, k);
-        let mut ch = spawn_worker(b, &pool_path, &refs_path, from, to, &tag, true);
-        let st = ch.wait().expect("wait worker");
-        let path = format!("{}/work-{}.json", b.work_dir, tag);
-        match (st.code(), std::fs::read_to_string(&path)) {
-            (Some(0), Ok(s)) => {
-                if let Ok(o) = serde_json::from_str::<WorkerOut>(&s) {
-                    worker_outs.push(o)
+    // (all stalled ranges at once; a range whose no-yield run ends early because an operation
+    // never returned has produced its I5 candidate - the rest of that range is not re-queued)
+    {
+        let mut chs = Vec::new();
+        for (k, (from, to)) in rerun.into_iter().enumerate().take(b.workers.max(1) * 2) {
+            let tag = format!("{}-rerun{}", b.tag, k);
+            chs.push((tag.clone(), from, to, spawn_worker(b, &pool_path, &refs_path, from, to, &tag, true)));
+        }
+        for (tag, from, to, mut ch) in chs {
+            let st = ch.wait().expect("wait worker");
+            let path = format!("{}/work-{}.json", b.work_dir, tag);
+            match (st.code(), std::fs::read_to_string(&path)) {
+                (Some(0), Ok(s)) => {
+                    if let Ok(o) = serde_json::from_str::<WorkerOut>(&s) {
+                        worker_outs.push(o)
+                    }
                 }
+                (code, _) => out.harness_errors.push(format!("range {}..{} stalled or died again with yields off (status {:?})", from, to, code)),
             }
-            (code, _) => out.harness_errors.push(format!("range {}..{} stalled or died again with yields off (status {:?})", from, to, code)),
         }
     }
     // determinism sample
